@@ -43,10 +43,10 @@ func enumDHCP(alpha []dOp, depth, i int, cfg dhcpCfg) dhcpHistory {
 	return h
 }
 
-var dReqClasses = []string{"", "offered", "offered", "current", "current", "other", "other", "free", "offsubnet", "network", "broadcast", "router", "host", "othersubnet"}
+var dReqClasses = []string{"", "offered", "offered", "current", "current", "other", "other", "free", "offsubnet", "network", "broadcast", "router", "host", "othersubnet", "twin"}
 
 func genDHCPHistory(t *rapid.T) dhcpHistory {
-	h := dhcpHistory{Cfg: dhcpCfg{Net: rapid.IntRange(0, 2).Draw(t, "net"), Mode: rapid.IntRange(1, 3).Draw(t, "mode"), Quiet: rapid.IntRange(0, 3).Draw(t, "quiet") == 0, Debug: rapid.IntRange(0, 5).Draw(t, "debug") == 0}}
+	h := dhcpHistory{Cfg: dhcpCfg{Net: rapid.IntRange(0, 3).Draw(t, "net"), Mode: rapid.IntRange(1, 3).Draw(t, "mode"), Quiet: rapid.IntRange(0, 3).Draw(t, "quiet") == 0, Debug: rapid.IntRange(0, 5).Draw(t, "debug") == 0}}
 	n := rapid.IntRange(5, 80).Draw(t, "nops")
 	for i := 0; i < n; i++ {
 		op := dOp{K: rapid.SampledFrom([]string{"discover", "discover", "discover", "request", "request", "request", "request", "decline", "release", "capture", "uncapture", "tick", "foreign"}).Draw(t, "k")}
